@@ -354,7 +354,8 @@ class Env:
             return ("VStr", rng.choice(STRINGS))
         if k == "DInt":
             lo, hi = d[1], d[2]
-            c = [x for x in (0, 1, 2, 7, 42, lo, hi, lo + 1, hi - 1, -1, 1 << 31, 1 << 53) if lo <= x <= hi]
+            c = [x for x in (0, 1, 2, 7, 42, lo, hi, lo + 1, hi - 1, -1, 1 << 31, 1 << 53, (1 << 53) + 1, 1234567890123456789, -(1 << 53) - 1,
+                           rng.randrange(1 << 53, 1 << 63), rng.randrange(-(1 << 63), -(1 << 53))) if lo <= x <= hi]
             return ("VInt", rng.choice(c))
         if k == "DFloat":
             if not finite and rng.random() < 0.3:
